@@ -61,6 +61,34 @@ def run(tier, seed):
             raise v.ToolError("TraceDisk: " + r.out[-500:])
         else:
             v.tlc_ok(r, "TraceDisk(nested)")
+    # a recovery with more than 1024 non-adjacent repairs (the journal is written in chunks): expired
+    # newest generations at lower sectors than their older generations; recovery's writes are cut at
+    # every fsync boundary and every durable state is recovered again by the real code
+    shm = v.shm_dir("c04chunk")
+    try:
+        ct = os.path.join(rd, "chunked.ndjson")
+        rc, so, se = v.run_cmd([fxv, "chunkrec", "--dir", shm, "--out", ct, "--keys", "1100",
+                                "--cc", "3" if tier == "quick" else "2"], timeout=600)
+    finally:
+        import shutil
+        shutil.rmtree(shm, ignore_errors=True)
+    if rc != 0:
+        raise v.ToolError("fxv chunkrec failed: " + se[-400:])
+    r = ce.validate(rd, ct, (["RealOpens", "RealWindow", "RealCount", "RepairsSafe"] if tier == "quick" else INV), timeout=3000)
+    st["states"] += r.distinct
+    st["transitions"] += r.generated
+    st["images"] += sum(1 for line in open(ct) if '"e":"rec"' in line)
+    if r.violation and r.violation.startswith("invariant"):
+        what, key, idx = ce.classify_violation(r, ct)
+        # keep a compact replay: the driver arguments reproduce the whole scenario
+        keep = v.save_replay("c04", "chunked.args.json", {"cmd": "fxv chunkrec --keys 1100", "info": so[-400:], "what": what[:600]})
+        viol.append({"what": "recovery interrupted between journal chunks: " + what[:500], "replay": keep,
+                     "key": "chunked-retirement " + r.violation})
+    elif r.violation:
+        raise v.ToolError("TraceDisk(chunked): " + r.out[-400:])
+    else:
+        v.tlc_ok(r, "TraceDisk(chunked)")
+    nested.append(ct)
     kinds = {}
     for t in nested:
         for line in open(t):
